@@ -113,6 +113,10 @@ def extra_seeds():
         {"kind": "xml", "rows": [{"enc": [["ab", 1], [1, 1]], "rep": 1}, {"enc": [[2, 1], ["c d", 1]], "rep": 1}], "cols": [2]},
         # one column only
         {"kind": "xml", "rows": [{"enc": [[1, 1]], "rep": 2}, {"enc": [[2, 1]], "rep": 1}], "cols": [1]},
+        # csv: delimiter characters inside strings, a decimal number, an apostrophe (a string holding the
+        # quote character together with delimiters defeats csv.Sniffer's doublequote detection, on which
+        # import_from_csv's documented, limited autodetection rests: not used)
+        {"kind": "xml", "rows": [{"enc": [["a,b", 1], [1.5, 1]], "rep": 1}, {"enc": [["q t", 1], ["x;y", 1]], "rep": 1}, {"enc": [[-2, 1], ["it's", 1]], "rep": 1}], "cols": [2]},
         # values that evaluate to False are values: trailing 0 cells / rows of zeros must survive stripping
         {"kind": "xml", "rows": [{"enc": [[1, 1], [0, 2]], "rep": 1}, {"enc": [[0, 1], [None, 2]], "rep": 1}, {"enc": [[0, 3]], "rep": 2}, {"enc": [[None, 3]], "rep": 1}], "cols": [3]},
     ]
